@@ -55,8 +55,20 @@ func (a *SArr) Flush() *Term {
 			return t
 		}
 	}
-	for _, k := range ks {
-		t = Store(t, Const(64, k), a.ov[k])
+	// runs of at least 16 consecutive indices holding the same value become one range store
+	for i := 0; i < len(ks); {
+		j := i
+		for j+1 < len(ks) && ks[j+1] == ks[j]+1 && a.ov[ks[j+1]] == a.ov[ks[i]] {
+			j++
+		}
+		if j-i+1 >= 16 {
+			t = RangeStore(t, ks[i], ks[j], a.ov[ks[i]])
+		} else {
+			for k := i; k <= j; k++ {
+				t = Store(t, Const(64, ks[k]), a.ov[ks[k]])
+			}
+		}
+		i = j + 1
 	}
 	a.base = t
 	a.ov = map[uint64]*Term{}
